@@ -138,7 +138,7 @@ func (g *G) Attr(depth int, addressable bool) *schema.AttributeSchema {
 		}
 		a.Address.AsReference = !a.Address.AsExprType || g.coin(0.3)
 	}
-	if g.coin(0.1) {
+	if g.coin(0.1) || (g.O.Mods && g.coin(0.6)) {
 		a.SemanticTokenModifiers = lang.SemanticTokenModifiers{lang.SemanticTokenModifier(g.id("mod"))}
 	}
 	if g.O.Hooks && g.coin(0.2) {
@@ -261,6 +261,9 @@ func (g *G) addMarkers(body *schema.BodySchema) {
 func (g *G) Block(depth int, top bool) *schema.BlockSchema {
 	bs := &schema.BlockSchema{Description: g.desc("block"), Type: schema.BlockType(g.pick(5)), IsDeprecated: g.coin(0.08)}
 	nl := g.pick(3)
+	if g.O.Mods && g.coin(0.5) {
+		nl = 2
+	}
 	if top && g.coin(0.6) && nl == 0 {
 		nl = 1 + g.pick(2)
 	}
@@ -269,7 +272,7 @@ func (g *G) Block(depth int, top bool) *schema.BlockSchema {
 	}
 	for i := 0; i < nl; i++ {
 		bs.Labels = append(bs.Labels, &schema.LabelSchema{Name: g.id("l"), Description: g.desc("label")})
-		if g.coin(0.2) {
+		if g.coin(0.2) || (g.O.Mods && g.coin(0.85)) {
 			bs.Labels[i].SemanticTokenModifiers = lang.SemanticTokenModifiers{lang.SemanticTokenModifier(g.id("lmod"))}
 		}
 	}
@@ -280,8 +283,11 @@ func (g *G) Block(depth int, top bool) *schema.BlockSchema {
 		bs.MinItems = uint64(g.pick(2))
 		bs.MaxItems = uint64(g.pick(3))
 	}
-	if g.coin(0.2) {
+	if g.coin(0.2) || (g.O.Mods && g.coin(0.85)) {
 		bs.SemanticTokenModifiers = lang.SemanticTokenModifiers{lang.SemanticTokenModifier(g.id("bmod"))}
+		if g.O.Mods && g.coin(0.5) {
+			bs.SemanticTokenModifiers = append(bs.SemanticTokenModifiers, lang.SemanticTokenModifier(g.id("bmod")))
+		}
 	}
 	pDep := 0.45
 	if g.O.DepHeavy {
